@@ -188,6 +188,10 @@ def assume_index(assume):
                 idx.setdefault(p.id, []).append(("ge" if neg else "lt", q.aux))
             if p.op == "const":
                 idx.setdefault(q.id, []).append(("le" if neg else "gt", p.aux))
+            if p.op != "const" and q.op != "const":
+                # two variables: each is bounded through the other one's interval
+                idx.setdefault(p.id, []).append(("gev" if neg else "ltv", q))
+                idx.setdefault(q.id, []).append(("lev" if neg else "gtv", p))
     if len(_AIDX) > 20000:
         _AIDX.clear()
     _AIDX[k] = (assume, idx, aset)
@@ -228,6 +232,16 @@ def _arange(ev, st, t, depth=0):
             lo = max(lo, 1)
         elif kind == "eq0":
             lo, hi = 0, 0
+        elif kind in ("ltv", "gev", "gtv", "lev") and depth < 3:
+            ol, oh = T.urange(c) if depth >= 2 else arange(ev, st, c, depth + 3)
+            if kind == "ltv" and oh >= 1:
+                hi = min(hi, oh - 1)
+            elif kind == "gev":
+                lo = max(lo, ol)
+            elif kind == "gtv":
+                lo = max(lo, ol + 1)
+            elif kind == "lev":
+                hi = min(hi, oh)
     if depth == 0 and st.assume and lo == 0 and (t.op in ("sym", "rng", "res", "select") or (t.op == "aff" and t.w <= 16 and len(t.args) == 1)):
         z = T.eqz(t)
         if z.op != "const":
